@@ -164,7 +164,7 @@ def run_gvp(case):
 
 def describe(tier, seed):
     return {'rule': 'circuits of 2-3 (thorough 4) decaying nodes with pairwise different rate and initial value (every '
-                    'trajectory unique, closed-form euler iterates), hierarchy depth 0-1 (2), ALL permutations of the node '
+                    'trajectory unique, closed-form euler iterates), hierarchy depth 0-2 plus two branches with equal inner labels (quick: for 3 nodes; depth 0-1 for 2), ALL permutations of the node '
                     'declaration order, a second node type that breaks the vectorization group (with unique and with one generic template name); every output request form '
                     '(dict/list, single, wildcard at each level, several keys, single+wildcard mixed) x vectorize; each '
                     'DataFrame column must hold the trajectory of exactly the node named by its label and the set of columns '
